@@ -2,6 +2,7 @@ package c11
 
 import (
 	"fmt"
+	"os"
 	"regexp"
 	"sort"
 	"strconv"
@@ -12,13 +13,22 @@ import (
 
 // ---- oracle A: totality ----------------------------------------------------------
 
-var frameRe = regexp.MustCompile(`(?m)^(github\.com/ogen-go/ogen[^\s(]*|github\.com/go-faster/[^\s(]*)[.(]`)
+var (
+	funcRe    = regexp.MustCompile(`(?m)^((?:github\.com/ogen-go/ogen|github\.com/go-faster/(?:yaml|jx|errors))[^\s]*)\(.*\n\t(\S+\.go):(\d+)`)
+	genericRe = regexp.MustCompile(`\[[^\]]*\]`)
+	closureRe = regexp.MustCompile(`\.func\d+(\.\d+)*$`)
+	slugRe    = regexp.MustCompile(`[^a-z0-9]+`)
+)
 
-var funcRe = regexp.MustCompile(`(?m)^((?:github\.com/ogen-go/ogen|github\.com/go-faster/(?:yaml|jx|errors))[^\s]*)\(`)
-
-// topFrame names the innermost function of ogen (or of its YAML/JSON front
-// end) on a panic / fatal stack: the root-cause site used as classifier.
-func topFrame(stack string) string {
+// topFrame names the root-cause site of a panic / fatal stack: the innermost
+// function of ogen (or of its YAML/JSON front end) below the LAST panic() frame
+// (ogen re-panics from deferred handlers such as gen.handleSchemaDepth). For a
+// recovered panic the text of the source line is appended as a slug, so that two
+// different faults inside one large function get different classifiers.
+func topFrame(stack string, withLine bool) string {
+	if i := strings.LastIndex(stack, "\npanic("); i >= 0 {
+		stack = stack[i:]
+	}
 	for _, m := range funcRe.FindAllStringSubmatch(stack, -1) {
 		fn := m[1]
 		if strings.Contains(fn, "/checks/c11") {
@@ -27,34 +37,73 @@ func topFrame(stack string) string {
 		fn = strings.TrimPrefix(fn, "github.com/ogen-go/ogen/")
 		fn = strings.TrimPrefix(fn, "github.com/ogen-go/")
 		fn = strings.TrimPrefix(fn, "github.com/go-faster/")
-		// drop generic instantiation noise and closures' numbering
-		fn = regexp.MustCompile(`\[[^\]]*\]`).ReplaceAllString(fn, "")
-		fn = regexp.MustCompile(`\.func\d+(\.\d+)*$`).ReplaceAllString(fn, "")
+		fn = genericRe.ReplaceAllString(fn, "")
+		fn = closureRe.ReplaceAllString(fn, "")
 		fn = strings.NewReplacer("(*", "", ")", "", "/", "-", ".", "-", "_", "-").Replace(fn)
-		return strings.ToLower(strings.Trim(fn, "-"))
+		fn = strings.ToLower(strings.Trim(fn, "-"))
+		if withLine {
+			if n, err := strconv.Atoi(m[3]); err == nil {
+				if src, err := os.ReadFile(m[2]); err == nil {
+					if lines := strings.Split(string(src), "\n"); n >= 1 && n <= len(lines) {
+						slug := strings.Trim(slugRe.ReplaceAllString(strings.ToLower(lines[n-1]), "-"), "-")
+						if len(slug) > 48 {
+							slug = strings.Trim(slug[:48], "-")
+						}
+						if slug != "" {
+							fn += "--" + slug
+						}
+					}
+				}
+			}
+		}
+		return fn
 	}
 	return "unknown"
 }
 
-// totality turns a verdict into a finding of oracle A (nil: returned ok or an error value).
-func totality(v verdict, spelling string) *vk.Finding {
+// shape is what the classifier predicates may look at besides the verdict.
+type shape struct {
+	Fault   string   // fault family label ("" for byte-level inputs)
+	Arg     string
+	KeyPath []string // pointer tokens of the faulted place in the base document
+}
+
+func (s shape) under(key string) bool {
+	for _, k := range s.KeyPath {
+		if k == key {
+			return true
+		}
+	}
+	return false
+}
+
+// totality turns a verdict into a finding of oracle A (nil: returned ok or an
+// error value). The classifier names the root cause: kind of failure + the
+// innermost ogen function on the stack, refined by the input shape where the
+// function alone is too generic (template execution).
+func totality(v verdict, spelling string, sh shape) *vk.Finding {
 	switch v.Class {
 	case "ok", "error":
 		return nil
 	case "panic":
-		return vk.F("panic-"+topFrame(v.Stack), "%s spelling: panic in stage %s: %s\n%s", spelling, v.Stage, v.Panic, clip(v.Stack, 1800))
+		return vk.F("panic-"+v.Top, "%s spelling: panic in stage %s: %s\n%s", spelling, v.Stage, v.Panic, clip(v.Stack, 1800))
 	case "watchdog":
-		return vk.F("hang-"+topFrame(v.Stderr), "%s spelling: no result within the confirmation budget (%d ms), worker killed\n%s", spelling, v.MS, clip(v.Stderr, 1500))
+		return vk.F("hang-"+v.Top, "%s spelling: no result within the confirmation budget (%s, %d ms CPU), worker killed\n%s", spelling, v.Stage, v.CPUMS, clip(v.Stderr, 1500))
 	case "died":
 		switch {
 		case v.ExitCode == exitMemoryCeiling || strings.Contains(v.Stderr, "C11-MEMORY-CEILING"):
 			return vk.F("memory-ceiling", "%s spelling: worker exceeded the %d MiB RSS ceiling after %d ms: %s", spelling, memCeilingBytes>>20, v.MS, clip(v.Stderr, 300))
 		case strings.Contains(v.Stderr, "stack overflow") || strings.Contains(v.Stderr, "goroutine stack exceeds"):
-			return vk.F("stack-overflow-"+topFrame(v.Stderr), "%s spelling: fatal stack overflow (goroutine stack ceiling %d MiB) killed the process\n%s", spelling, maxStackBytes>>20, clip(v.Stderr, 1800))
+			cl := "stack-overflow-" + v.Top
+			if v.Top == "gen-writer-generate" && sh.Fault == "cycle" && sh.under("parameters") {
+				// template execution recursing over a parameter type that contains itself
+				cl += "-cyclic-parameter-schema"
+			}
+			return vk.F(cl, "%s spelling: fatal stack overflow (goroutine stack ceiling %d MiB) killed the process\n%s", spelling, maxStackBytes>>20, clip(v.Stderr, 1800))
 		case strings.Contains(v.Stderr, "out of memory"):
 			return vk.F("out-of-memory", "%s spelling: fatal out of memory\n%s", spelling, clip(v.Stderr, 1200))
 		default:
-			return vk.F("worker-died-"+topFrame(v.Stderr), "%s spelling: the process ended (exit code %d) instead of returning\n%s", spelling, v.ExitCode, clip(v.Stderr, 1800))
+			return vk.F("worker-died-"+v.Top, "%s spelling: the process ended (exit code %d) instead of returning\n%s", spelling, v.ExitCode, clip(v.Stderr, 1800))
 		}
 	}
 	return vk.F("harness-bad-verdict", "unknown verdict class %q", v.Class)
@@ -120,7 +169,7 @@ func urlUnescape(s string) (string, error) {
 	var b strings.Builder
 	for i := 0; i < len(s); i++ {
 		if s[i] == '%' {
-			if i+2 >= len(s)+0 && i+2 > len(s)-1 {
+			if i+2 > len(s)-1 {
 				return "", fmt.Errorf("bad escape")
 			}
 			v, err := strconv.ParseUint(s[i+1:i+3], 16, 8)
@@ -267,14 +316,29 @@ func attribute(a applied, ix *docIndex, l locInfo) string {
 		}
 	}
 	for _, h := range referrers(a.Tree, a) {
+		// h holds the reference string ({"$ref": …}); the object that has h as a
+		// member (media type, parameter, property list) is where a consequence
+		// of the fault may legitimately be noticed
+		owner := h
+		if len(owner) > 0 {
+			owner = owner[:len(owner)-1]
+		}
 		for _, c := range cands {
-			if related(c.Path, h) {
+			if related(c.Path, h) || isPrefix(owner, c.Path) {
 				return "referrer"
 			}
 		}
 	}
 	if len(a.Names) > 0 {
 		for _, c := range cands {
+			// a key on the way to the reported node carries the name (path template "/x/{name}")
+			for _, k := range a.Tree.keyPath(c.Path) {
+				for _, name := range a.Names {
+					if name != "" && (k == name || strings.Contains(k, "{"+name+"}")) {
+						return "by-name"
+					}
+				}
+			}
 			p := c.Path
 			if len(p) > 0 {
 				p = p[:len(p)-1]
